@@ -28,8 +28,15 @@ def _arr(M, ncols):
     return np.array(M, dtype=float)
 
 
-def _rows_multiset(A):
-    return sorted(tuple(int(round(v)) for v in row) for row in A)
+def _rows_multiset(A, up_to_sign=False):
+    rows = [tuple(int(round(v)) for v in row) for row in A]
+    if up_to_sign:       # normalise every row so that its first non-zero entry is positive
+        rows = [tuple(-v for v in r) if next((v for v in r if v != 0), 1) < 0 else r for r in rows]
+    return sorted(rows)
+
+
+def _integer_valued(A):
+    return bool(np.all(np.isfinite(A)) and np.array_equal(A, np.round(A)))
 
 
 def _key(c):
@@ -49,15 +56,20 @@ def _build_op(c, dx=None):
 def check_operator(ctx, c, variants):
     """c: TLC case (wm variant chosen among `variants` for periodic).  Returns the variant the code follows."""
     dim = c["n"] if c["pd"] == 1 else c["n"] ** 2
-    op = _build_op(c)
-    A = np.asarray(op.get_matrix().todense() if hasattr(op.get_matrix(), "todense") else op.get_matrix(), dtype=float)
+    sig = "operator/" + _key(c)
+    try:
+        op = _build_op(c)
+        A = np.asarray(op.get_matrix().todense() if hasattr(op.get_matrix(), "todense") else op.get_matrix(), dtype=float)
+    except Exception as e:      # a documented (size, boundary condition, order) must yield an operator
+        ctx.mismatch(sig + "/raises", c, "the difference operator cannot be constructed: %r" % e)
+        return None
     chosen = None
+    uts = c["bc"] == "backward"      # the sign of a `backward` row is not documented: rows are compared up to a sign
     for v in variants:
         D = _arr(v["D"], dim)
-        if A.shape == D.shape and _rows_multiset(A) == _rows_multiset(D):
+        if A.shape == D.shape and _integer_valued(A) and _rows_multiset(A, uts) == _rows_multiset(D, uts):
             chosen = v
             break
-    sig = "operator/" + _key(c)
     if chosen is None:
         ctx.mismatch(sig, c, "rows of the difference operator differ from the stencil rows of the specification",
                      expected=[v["D"] for v in variants], observed=A)
@@ -74,15 +86,25 @@ def check_operator(ctx, c, variants):
                      expected=D, observed=A)
     # action on vectors: matmul protocol
     x = np.arange(1, dim + 1, dtype=float) ** 2 % 7 - 3
-    if not np.allclose(op @ x, A @ x, atol=1e-12):
-        ctx.mismatch("matmul/" + _key(c), c, "operator @ x differs from get_matrix() @ x", A @ x, op @ x)
+    try:
+        y = np.asarray(op @ x, dtype=float).ravel()
+    except Exception as e:
+        y = None
+        ctx.mismatch("matmul/" + _key(c) + "/raises", c, "operator @ x raises: %r" % e)
+    if y is not None and (y.shape != (A.shape[0],) or not np.allclose(y, A @ x, atol=1e-12)):
+        ctx.mismatch("matmul/" + _key(c), c, "operator @ x differs from get_matrix() @ x", A @ x, y)
     # grid spacing (1-D only; 2-D refuses dx)
     if c["pd"] == 1:
         for dx in (0.5, 2.0):
-            Adx = np.asarray(_build_op(c, dx).get_matrix().todense(), dtype=float)
             exp = A / dx ** c["order"]
             ctx.case(("dx", _key(c), dx))
-            if not np.allclose(Adx, exp, rtol=1e-14, atol=0):
+            try:
+                M = _build_op(c, dx).get_matrix()
+                Adx = np.asarray(M.todense() if hasattr(M, "todense") else M, dtype=float)
+            except Exception as e:
+                ctx.mismatch("dx/" + _key(c) + "/dx=%g/raises" % dx, c, "operator with grid spacing dx cannot be constructed: %r" % e)
+                continue
+            if Adx.shape != exp.shape or not np.allclose(Adx, exp, rtol=1e-14, atol=0):
                 ctx.mismatch("dx/" + _key(c) + "/dx=%g" % dx, c, "operator with grid spacing dx is not stencil/dx^order",
                              expected=exp, observed=Adx)
     return chosen
@@ -107,6 +129,45 @@ def _pdet(P, rank):
     return float(np.sum(np.log(w)))
 
 
+def _num(v):
+    """value returned by logpdf -> float (nan when it is not a single finite-or-infinite number)"""
+    a = np.asarray(v, dtype=float)
+    return float(a.ravel()[0]) if a.size == 1 else float("nan")
+
+
+def check_mrf_logpdfs(ctx, c, D, bc, geom, x, loc, keyo, documented=True):
+    """LMRF / CMRF evaluate D (x - location) (vector location and scalar location, two scales).
+    documented=False (`backward`, `none`: the class docstrings only say "the boundary conditions of the difference
+    operator"): a refusal to construct is an observation, the density of a constructed object is still judged."""
+    import cuqi
+    locs = [("vector", np.array(loc), loc), ("scalar", 1.5, np.full(len(x), 1.5))]      # "location : scalar or ndarray"
+    for lname, larg, lfull in locs:
+        Dx = D @ (x - lfull)
+        k = len(Dx)
+        for scale in (0.5, 2.0):
+            try:
+                lm = cuqi.distribution.LMRF(larg, scale, bc_type=bc, geometry=geom)
+                cm = cuqi.distribution.CMRF(larg, scale, bc_type=bc, geometry=geom)
+            except Exception as e:
+                if documented:
+                    ctx.mismatch("mrf_construct/" + keyo, c, "LMRF/CMRF cannot be constructed: %r" % e)
+                else:
+                    ctx.observations.setdefault("mrf_refuses_boundary_condition", {})[bc] = repr(e)[:100]
+                return
+            ctx.case(("lmrf_cmrf", keyo, lname, scale))
+            exp_l = k * (-math.log(2 * scale)) - np.abs(Dx).sum() / scale
+            exp_c = float(np.sum(np.log(scale / (math.pi * (scale ** 2 + Dx ** 2)))))
+            for nm, dist, exp, what in (("lmrf", lm, exp_l, "LMRF.logpdf is not the Laplace density of D(x-location)"),
+                                        ("cmrf", cm, exp_c, "CMRF.logpdf is not the Cauchy density of D(x-location)")):
+                try:
+                    got = _num(dist.logpdf(np.array(x)))
+                except Exception as e:
+                    ctx.mismatch("%s_logpdf/%s/loc=%s/raises" % (nm, keyo, lname), c, "logpdf raises: %r" % e, exp, repr(e))
+                    continue
+                if not abs(exp - got) <= 1e-9 * max(1, abs(exp)):
+                    ctx.mismatch("%s_logpdf/%s/loc=%s" % (nm, keyo, lname), c, what, exp, got)
+
+
 def check_priors(ctx, c, chosen, order):
     """GMRF (order 0..2), and for first-order operators LMRF / CMRF, on the configuration's grid."""
     import cuqi, io, contextlib
@@ -123,7 +184,6 @@ def check_priors(ctx, c, chosen, order):
     x = rng.randint(-3, 4, size=dim).astype(float) / 2
     keyo = "pd=%d/n=%d/bc=%s/order=%d" % (pd, n, bc, order)
     deltas = (1.0, 4.0)
-    vals = []
     try:
         with contextlib.redirect_stdout(io.StringIO()):
             gm = [cuqi.distribution.GMRF(mean, d, bc_type=bc, order=order, geometry=geom) for d in deltas]
@@ -131,10 +191,17 @@ def check_priors(ctx, c, chosen, order):
         ctx.mismatch("gmrf_construct/" + keyo, c, "GMRF cannot be constructed for a documented configuration: %r" % e)
         return
     ctx.case(("gmrf", keyo))
+    try:
+        l1, l2 = _num(gm[0].logpdf(mean)), _num(gm[1].logpdf(mean))
+        lx = [_num(g.logpdf(x)) for g in gm]
+        S = gm[1].sqrtprec
+        S = np.asarray(S.todense() if hasattr(S, "todense") else S, dtype=float)
+    except Exception as e:
+        ctx.mismatch("gmrf_evaluate/" + keyo, c, "GMRF.logpdf / sqrtprec raise for a documented configuration: %r" % e)
+        return
     # rank: from the dependence of the normalising constant on delta  (public API only)
-    l1, l2 = gm[0].logpdf(mean), gm[1].logpdf(mean)
     rank_code = 2 * (l2 - l1) / (math.log(deltas[1]) - math.log(deltas[0]))
-    if abs(rank_code - rank) > 1e-6:
+    if not abs(rank_code - rank) <= 1e-6:
         ctx.mismatch("gmrf_rank/" + keyo, c, "rank used in the GMRF normalising constant is not the rank of its precision",
                      expected=rank, observed=rank_code)
     else:
@@ -144,40 +211,30 @@ def check_priors(ctx, c, chosen, order):
         if not np.isfinite(logdet_code) or abs(logdet_code - logdet) > 1e-6 * max(1, abs(logdet)):
             ctx.mismatch("gmrf_logdet/" + keyo, c, "log-determinant in the GMRF normalising constant is not the log "
                          "pseudo-determinant of its precision", expected=logdet, observed=logdet_code)
+    # the rank the field reports (public property `rank`, where the class offers it)
+    try:
+        rank_attr = getattr(gm[0], "rank", None)
+    except Exception:
+        rank_attr = None
+    if isinstance(rank_attr, (int, float, np.integer, np.floating)):
+        ctx.case(("gmrf_rank_property", keyo))
+        if int(rank_attr) != rank or rank_attr != int(rank_attr):
+            ctx.mismatch("gmrf_rank_property/" + keyo, c, "GMRF.rank is not the rank of its precision", rank, rank_attr)
     # quadratic form uses P and the shifted variable
-    for g, d in zip(gm, deltas):
-        q_code = -2 * (g.logpdf(x) - g.logpdf(mean))
+    for l0, lxx, d in zip((l1, l2), lx, deltas):
+        q_code = -2 * (lxx - l0)
         q = d * (x - mean) @ P @ (x - mean)
-        if abs(q_code - q) > 1e-9 * max(1, abs(q)):
+        if not abs(q_code - q) <= 1e-9 * max(1, abs(q)):
             ctx.mismatch("gmrf_quadratic/" + keyo, c, "GMRF quadratic form is not delta (x-mean)' P (x-mean)", q, q_code)
     # square-root precision
-    S = gm[1].sqrtprec
-    S = np.asarray(S.todense() if hasattr(S, "todense") else S, dtype=float)
     tol = 1e-12 if bc == "zero" else 1e-6   # non-zero BCs: documented jitter sqrt(eps) on the diagonal
-    if not np.allclose(S.T @ S, deltas[1] * P, atol=tol * deltas[1] * max(1, np.abs(P).max())):
-        ctx.mismatch("gmrf_sqrtprec/" + keyo, c, "sqrtprec' sqrtprec is not delta P", deltas[1] * P, S.T @ S)
+    if S.shape[1:] != (dim,) or not np.allclose(S.T @ S, deltas[1] * P, atol=tol * deltas[1] * max(1, np.abs(P).max())):
+        ctx.mismatch("gmrf_sqrtprec/" + keyo, c, "sqrtprec' sqrtprec is not delta P", deltas[1] * P,
+                     S.T @ S if S.ndim == 2 else S)
     if order != 1:
         return
     # LMRF / CMRF evaluate D (x - location)
-    loc = mean
-    for scale in (0.5, 2.0):
-        Dx = D @ (x - loc)
-        k = len(Dx)
-        try:
-            lm = cuqi.distribution.LMRF(loc, scale, bc_type=bc, geometry=geom)
-            cm = cuqi.distribution.CMRF(loc, scale, bc_type=bc, geometry=geom)
-        except Exception as e:
-            ctx.mismatch("mrf_construct/" + keyo, c, "LMRF/CMRF cannot be constructed: %r" % e)
-            return
-        ctx.case(("lmrf_cmrf", keyo, scale))
-        exp_l = k * (-math.log(2 * scale)) - np.abs(Dx).sum() / scale
-        got_l = float(lm.logpdf(x))
-        if abs(exp_l - got_l) > 1e-9 * max(1, abs(exp_l)):
-            ctx.mismatch("lmrf_logpdf/" + keyo, c, "LMRF.logpdf is not the Laplace density of D(x-location)", exp_l, got_l)
-        exp_c = float(np.sum(np.log(scale / (math.pi * (scale ** 2 + Dx ** 2)))))
-        got_c = float(cm.logpdf(x))
-        if abs(exp_c - got_c) > 1e-9 * max(1, abs(exp_c)):
-            ctx.mismatch("cmrf_logpdf/" + keyo, c, "CMRF.logpdf is not the Cauchy density of D(x-location)", exp_c, got_c)
+    check_mrf_logpdfs(ctx, c, D, bc, geom, x, mean, keyo)
 
 
 def run_config(ctx, variants):
@@ -192,10 +249,20 @@ def run_config(ctx, variants):
     if c["bc"] in ("zero", "periodic", "neumann"):
         check_precision(ctx, c, chosen, c["order"])
         check_priors(ctx, c, chosen, c["order"])
+    if c["bc"] in ("backward", "none") and c["order"] == 1 and (c["n"] if c["pd"] == 1 else c["n"] ** 2) >= 2:
+        # LMRF / CMRF hand bc_type to the first-order operator: |.| and (.)^2 of D (x - location) do not see a row sign
+        import cuqi
+        n, pd = c["n"], c["pd"]
+        dim = n if pd == 1 else n * n
+        rs = np.random.RandomState(2000 + dim)
+        loc = rs.randint(-2, 3, size=dim).astype(float)
+        x = rs.randint(-3, 4, size=dim).astype(float) / 2
+        geom = cuqi.geometry.Continuous1D(n) if pd == 1 else cuqi.geometry.Image2D((n, n))
+        check_mrf_logpdfs(ctx, c, _arr(chosen["D"], dim), c["bc"], geom, x, loc, _key(c), documented=False)
     if c["bc"] == "none" and c["order"] == 1:
         # order 0 precision / GMRF = identity operator, for every boundary condition name
         for bc in ("zero", "periodic", "neumann"):
-            c0 = dict(c, bc=bc)
+            c0 = dict(c, bc=bc, order=0)       # (replay() finds the `none` group again through order == 0)
             ch0 = dict(chosen, rank=(c["n"] if c["pd"] == 1 else c["n"] ** 2))
             check_precision(ctx, c0, ch0, 0)
             check_priors(ctx, c0, ch0, 0)
@@ -204,11 +271,20 @@ def run_config(ctx, variants):
 def run(ctx):
     res = ctx.tlc("DiffOps", cfg="DiffOps.%s.cfg" % ctx.tier, workers=16, timeout=1500)
     ctx.model_must_hold(res, "DiffOps")
+    from cuqiverif import tlc as _tlc
+    from cuqiverif.core import MachineryError
+    cases = list(res.cases)
+    _tlc.cleanup(res)
+    # named deviation: "rank from the boundary condition alone" must be refuted by the exact rank (non-vacuity of NullExact)
+    dev = ctx.tlc("DiffOps", cfg="DiffOps.dev_rankfrombc.cfg", workers=2, timeout=900, expect_violation=True)
+    _tlc.cleanup(dev)
+    if dev.violated != "RankFromBCOnly":
+        raise MachineryError("deviation RankFromBCOnly was not refuted (got %r): the rank invariant is vacuous" % dev.violated)
+    ctx.observe("deviation_runs", {"DiffOps.dev_rankfrombc.cfg": "RankFromBCOnly"})
     groups = {}
-    for c in res.cases:
+    for c in cases:
         groups.setdefault(_key(c), []).append(c)
     if not groups:
-        from cuqiverif.core import MachineryError
         raise MachineryError("no cases emitted by DiffOps")
     for k in sorted(groups):
         run_config(ctx, groups[k])
@@ -228,6 +304,8 @@ def replay(ctx, case):
     # re-emit this configuration's variants from TLC to stay spec-driven
     res = ctx.tlc("DiffOps", cfg="DiffOps.thorough.cfg", workers=16, timeout=1500)
     variants = [c for c in res.cases if _key(c) == _key(case) or (c["pd"], c["n"]) == (case["pd"], case["n"]) and c["bc"] == "none" and case["order"] == 0 and c["order"] == 1]
+    from cuqiverif import tlc as _tlc
+    _tlc.cleanup(res)
     groups = {}
     for c in variants:
         groups.setdefault(_key(c), []).append(c)
